@@ -1,0 +1,60 @@
+//go:build verif
+
+package collection
+
+// Contracts for the deductive verifier in /verif (govc). Comment-only file: adds no code.
+
+//@ spec ticksUntil(p int, t int, n int) int = wrap(p - t - 1, n) + 1
+
+//@ func (*TimingWheel).getPositionAndCircle
+//@   prop C10
+//@   requires w.numSlots >= 1 && 0 <= w.tickedPos && w.tickedPos < w.numSlots
+//@   requires w.interval > 0 && d >= w.interval
+//@   ensures [range] 0 <= pos && pos < w.numSlots && circle >= 0
+//@   ensures [ticks] ticksUntil(pos, w.tickedPos, w.numSlots) + circle*w.numSlots == d / w.interval
+//@   modifies nothing
+
+// ---- SafeMap: abstract view = dirtyOld ∪ dirtyNew (dirtyOld wins) ----
+
+//@ macro smHas(m, k) = has(m.dirtyOld, k) || has(m.dirtyNew, k)
+//@ macro smGet(m, k) = ite(has(m.dirtyOld, k), m.dirtyOld[k].val, m.dirtyNew[k].val)
+//@ macro smTag(m, k) = ite(has(m.dirtyOld, k), m.dirtyOld[k].tag, m.dirtyNew[k].tag)
+
+//@ func (*SafeMap).Get
+//@   prop C10
+//@   requires m != nil
+//@   ensures [found] result1 == smHas(m, key)
+//@   ensures [value] result1 ==> result0.val == smGet(m, key) && result0.tag == smTag(m, key)
+//@   modifies nothing
+
+// R(entry) = number of ticks until the entry fires: reach its slot, wait `circle` revolutions, then (if it
+// has a pending shift `diff`) walk to the shifted slot.
+//@ spec untilFire(p int, c int, d int, t int, n int) int = ticksUntil(p, t, n) + c*n + ite(d > 0, ticksUntil(wrap(p + d - n*ite(p + d >= 2*n, 1, 0), n), p, n), 0)
+
+// Representation invariant of the wheel's index: every value stored in `timers` is a *positionEntry whose
+// slot is in range and whose item carries non-negative circle/diff.
+//@ macro pe(e) = unbox(e, ptr(positionEntry))
+//@ macro twEntryOK(w, e) = typeis(e, ptr(positionEntry)) && pe(e) != nil && 0 <= pe(e).pos && pe(e).pos < w.numSlots
+//@   | && pe(e).item != nil && pe(e).item.circle >= 0 && pe(e).item.diff >= 0
+//@ macro twTimersOK(w) = forallk(k, int, (has(w.timers.dirtyOld, k) ==> twEntryOK(w, w.timers.dirtyOld[k]))
+//@   | && (has(w.timers.dirtyNew, k) ==> twEntryOK(w, w.timers.dirtyNew[k])))
+//@ macro twOK(w) = w != nil && w.numSlots >= 1 && 0 <= w.tickedPos && w.tickedPos < w.numSlots && w.interval > 0
+//@   | && len(w.slots) == w.numSlots && w.timers != nil
+
+//@ func (*TimingWheel).moveTask
+//@   prop C10
+//@   requires twOK(w) && twTimersOK(w)
+//@   let found = ret(Get, 1, 1)
+//@   let timer = unbox(ret(Get, 0, 1), ptr(positionEntry))
+//@   observe N = old(w.numSlots)
+//@   observe T = old(w.tickedPos)
+//@   observe P = old(timer.pos)
+//@   observe C0 = old(timer.item.circle)
+//@   observe D0 = old(timer.item.diff)
+//@   observe I = old(w.interval)
+//@   observe Delay = task.delay
+//@   replay tw_moveTask
+//@   replay-assume old(w.numSlots) <= 6 && task.delay <= 40 && old(w.interval) <= 2 && old(timer.item.circle) <= 3
+//@   ensures [absent] !found ==> calls(PushBack) == 0 && calls(Put) == 0
+//@   ensures [reschedule] found && task.delay >= w.interval ==>
+//@     | untilFire(timer.pos, timer.item.circle, timer.item.diff, w.tickedPos, w.numSlots) == task.delay / w.interval
